@@ -157,3 +157,34 @@ Theorem C03_equals_refl_any_order : forall norm order t p, (forall l k, In k (or
   RT norm false t p -> wf_ty t = true -> equals_ord order (V t p) (V t p) = Ok v_true.
 Proof. exact equals_ord_refl. Qed.
 Print Assumptions C03_equals_refl_any_order.
+
+From Cty Require Import EqualsDec.
+(* ---- "agrees with raw equality on wholly known values of the same type", at every depth ---- *)
+(* two wholly known values of one type in the structural fragment (nulls nested anywhere): whatever the equality
+   operation answers, through its public entry point, is True or False, never unknown; True exactly when the values
+   are identical, which is exactly when RawEquals answers true *)
+Theorem C03_equals_decides : forall norm t p q r, RT norm false t p -> RT norm false t q -> wf_ty t = true ->
+  equals_v (V t p) (V t q) = Ok r -> (r = v_true /\ p = q) \/ (r = v_false /\ p <> q).
+Proof. exact equals_v_decides. Qed.
+Print Assumptions C03_equals_decides.
+Theorem C03_equals_agrees_with_raw : forall norm t p q r, RT norm false t p -> RT norm false t q -> wf_ty t = true ->
+  equals_v (V t p) (V t q) = Ok r ->
+  (r = v_true <-> raw_equals (V t p) (V t q) = Ok true) /\ (r = v_true \/ r = v_false).
+Proof. exact equals_v_agrees_raw. Qed.
+Print Assumptions C03_equals_agrees_with_raw.
+(* the operation is symmetric there: swapping the operands cannot turn True into False or the reverse *)
+Theorem C03_equals_symmetric : forall norm t p q r r', RT norm false t p -> RT norm false t q -> wf_ty t = true ->
+  equals_v (V t p) (V t q) = Ok r -> equals_v (V t q) (V t p) = Ok r' -> r = r'.
+Proof.
+  intros norm t p q r r' R1 R2 W E1 E2.
+  destruct (equals_v_decides norm t p q r R1 R2 W E1) as [[-> P]|[-> P]];
+  destruct (equals_v_decides norm t q p r' R2 R1 W E2) as [[-> P']|[-> P']]; try reflexivity; exfalso; auto.
+Qed.
+Print Assumptions C03_equals_symmetric.
+(* non-vacuity: the operation does return on nested values, with both answers *)
+Example C03_equals_nonvacuous :
+  let t := TObj [([97%N], TList (TTuple [TStr; TBool])); ([98%N], TMap TStr)] [] in
+  let p := PMap [([97%N], PSeq [PSeq [PStr [120%N]; PBool true]; PNull]); ([98%N], PMap [([107%N], PStr []); ([108%N], PNull)])] in
+  let q := PMap [([97%N], PSeq [PSeq [PStr [120%N]; PBool false]; PNull]); ([98%N], PMap [([107%N], PStr []); ([108%N], PNull)])] in
+  equals_v (V t p) (V t p) = Ok v_true /\ equals_v (V t p) (V t q) = Ok v_false.
+Proof. cbv zeta. split; vm_compute; reflexivity. Qed.
